@@ -204,8 +204,18 @@ static int nvx_next_byte(void)
 	return nvx_pending[nvx_pend_pos++];
 }
 
+static char *nvx_exall;			/* everything printed since start-up (for conformance traces) */
+static long nvx_exall_len, nvx_exall_cap;
+
 static void nvx_exout_add(const char *s, long n)
 {
+	if (nvx_exall_len + n + 1 > nvx_exall_cap) {
+		nvx_exall_cap = (nvx_exall_len + n + 1) * 2 + 256;
+		nvx_exall = realloc(nvx_exall, nvx_exall_cap);
+	}
+	memcpy(nvx_exall + nvx_exall_len, s, n);
+	nvx_exall_len += n;
+	nvx_exall[nvx_exall_len] = '\0';
 	if (nvx_exout_len + n + 1 > nvx_exout_cap) {
 		nvx_exout_cap = (nvx_exout_len + n + 1) * 2 + 256;
 		nvx_exout = realloc(nvx_exout, nvx_exout_cap);
